@@ -851,6 +851,7 @@ class Interp(seq_detached.DetachedMixin, S.SeqRun):
                     return None
             if self.view.objs[mo.mid].deleted:
                 return None
+        mo = self.view.objs[mo.mid]       # the preludes replaced the view: re-read the object
         if use_del:
             self.probe('fail_probe_delete')
             st = self.op_del_of(mo)
@@ -866,8 +867,13 @@ class Interp(seq_detached.DetachedMixin, S.SeqRun):
                 if val is None:
                     raise Refuse('None assigned to required %r' % at)
                 v.objs[mo.mid].vals[at.name] = val
+            old_vals = dict(self.view.objs[mo.mid].vals)
             st = self.modify(desc, lambda: setattr(self.handle(mo.mid), at.name, val), model, must_fail=dup,
                              mids=[mo.mid])[0]
+            if st == 'ok':
+                # (the prelude can have removed what stood in the way) - same bookkeeping as op_set
+                self._note_keys_released(e, old_vals)
+                self._note_keys_taken(e, self.view.objs[mo.mid])
         # look around: the target, what it is linked to, and a few others
         near = [mo.mid]
         e = self.schema.by_name[mo.ent]
@@ -914,6 +920,19 @@ class Interp(seq_detached.DetachedMixin, S.SeqRun):
         pool_ = big if (big and r.chance(0.7)) else cands
         o, sa, ms = pool_[r.below(len(pool_))]
         self.probe('partial_scenario')
+        # bystanders: other owners of the same kind in the identity map, their collections not loaded (the batch
+        # loader picks them up when the owner's collection is loaded); one of them may have loaded its own first,
+        # which arms the N+1 batching of this attribute
+        others_same = [x for x in self.live_sorted(o.ent) if x.mid != o.mid and x.stored]
+        bystanders = []
+        if others_same and r.chance(0.6):
+            r.shuffle(others_same)
+            bystanders = others_same[:1 + r.below(2)]
+            for x in bystanders:
+                self.handle_or_poison(x.mid)
+            if r.chance(0.5):
+                self._probe_coll(bystanders[-1], sa, r.below(6), r.below(1000), tag=' [bystander, first load]')
+                bystanders = bystanders[:-1]
         if r.chance(0.8):
             self.handle_or_poison(o.mid)
         it = ms[0] if r.chance(0.6) else ms[r.below(len(ms))]
@@ -938,13 +957,21 @@ class Interp(seq_detached.DetachedMixin, S.SeqRun):
             return None
         j = r.below(10)
         if j < 4:
-            return self.op_del_of(self.view.objs[o.mid])
-        if j < 6:
-            return self.op_coll('clear' if j == 4 else 'assign', ai, bi, r.below(1000))
-        self._probe_coll(self.view.objs[o.mid], sa, r.below(6), r.below(1000), tag=' [partly loaded, change pending]')
-        if r.chance(0.5):
-            self._probe_coll(self.view.objs[o.mid], sa, r.below(6), r.below(1000), tag=' [again]')
-        return None
+            st = self.op_del_of(self.view.objs[o.mid])
+        elif j < 6:
+            st = self.op_coll('clear' if j == 4 else 'assign', ai, bi, r.below(1000))
+        else:
+            st = None
+            self._probe_coll(self.view.objs[o.mid], sa, r.below(6), r.below(1000), tag=' [partly loaded, change pending]')
+            if r.chance(0.5):
+                self._probe_coll(self.view.objs[o.mid], sa, r.below(6), r.below(1000), tag=' [again]')
+        # what the bystanders and the member see afterwards (both ends of links nobody touched)
+        for x in bystanders:
+            if not self.view.objs[x.mid].deleted:
+                self._probe_coll(self.view.objs[x.mid], sa, (3, 4, 0)[r.below(3)], r.below(1000), tag=' [bystander]')
+        if sa.reverse.is_set and not self.view.objs[it].deleted and r.chance(0.7):
+            self._probe_coll(self.view.objs[it], sa.reverse, (3, 4, 0)[r.below(3)], r.below(1000), tag=' [member side]')
+        return st
 
     def prelude_in_reach(self, plan, r):
         """an unflushed change inside the reach of a delete that is going to be refused: in a collection or at an
@@ -1592,6 +1619,7 @@ class Interp(seq_detached.DetachedMixin, S.SeqRun):
         self.released_keys = set()
         self.taken_keys = set()
         opts = dict(sess.get('opts') or {})
+        self.cur_session_opts = opts
         policy = self.case.get('flush_policy', 'never')
         ended = 'exit'
         try:
@@ -1745,7 +1773,8 @@ class Interp(seq_detached.DetachedMixin, S.SeqRun):
         elif name == 'del':
             self.op_del(a, b, c)
         elif name == 'bulk_del':
-            if not self.knobs.get('hook_mode'):
+            # (inside a ddl session SQLite's foreign keys are switched off on purpose: no ON DELETE actions there)
+            if not self.knobs.get('hook_mode') and not self.cur_session_opts.get('ddl'):
                 self.op_bulk_del(a, b, c)
         elif name == 'partial':
             if self.knobs.get('hook_mode') not in ('modify', 'create', 'link', 'after_edit'):
